@@ -5,6 +5,7 @@ import Hive.Model.DerivedWG
 import Hive.Model.DerivedVar
 import Hive.Model.DerivedLocks
 import Hive.Spec.Derived
+import Hive.Model.DerivedVarSeq
 /-! # Line protocol of the C14 driver: one construct per case, selected by the first token. -/
 namespace Hive.Derived
 open Hive.Proto Hive.Conc
@@ -17,6 +18,7 @@ inductive DSt
   | ss (s : SS)
   | ev (s : EV) (top : Nat)
   | wg (s : WG)
+  | dv (s : DV)
 
 def parseNatLists (toks : List String) : Option (List (List Nat)) := toks.mapM parseNats
 
@@ -87,6 +89,11 @@ def stepLine (st : DSt) (toks : List String) : DSt × String :=
     match st with
     | .ev s top => let r := s.stepLine top rest; (.ev r.1 top, r.2)
     | _ => (st, "bad-op")
+  | "dv" :: rest =>
+    let cur := match st with | .dv s => some s | _ => none
+    match DV.stepLine cur rest with
+    | (some s, a) => (.dv s, a)
+    | (none, a) => (st, a)
   | ["wg", "new", xs] =>
     match parseNats xs with
     | some xs => let s := WG.init.step (.add xs); (.wg s, s.show)
